@@ -5,6 +5,7 @@ import (
 	"fmt"
 	"os"
 
+	"verifharness/drv/cf"
 	"verifharness/drv/fwd"
 	"verifharness/drv/hb"
 )
@@ -17,6 +18,12 @@ func main() {
 	switch os.Args[1] {
 	case "fwd":
 		os.Exit(fwd.Main(os.Args[2:]))
+	case "cf":
+		os.Exit(cf.Main(os.Args[2:]))
+	case "cf-victim":
+		os.Exit(cf.VictimMain(os.Args[2:]))
+	case "cf-recover":
+		os.Exit(cf.RecoverMain(os.Args[2:]))
 	case "hb":
 		os.Exit(hb.Main(os.Args[2:]))
 	default:
